@@ -56,6 +56,10 @@ pub fn run(ctx: &Ctx) -> Value {
         let lim = (DUR_LIM / u) as i64;
         let mut vals: Vec<i64> = vec![0, 1, -1, lim - 1, lim, lim.saturating_add(1), -lim, (-lim).saturating_sub(1), -lim + 1, i64::MIN, i64::MIN + 1, i64::MAX - 1, i64::MAX];
         for _ in 0..ctx.t(5, 300) { vals.push(rng.next() as i64); vals.push(rng.loguniform(63)); }
+        // counts that end 1..9 units below (and above) a whole second, at every large scale up to the limit
+        if u < NS { let per = (NS / u) as i64;
+            for m in [1_000i64, 1_124_500_000, 1_999_999_999, 2_000_000_000, 2_050_000_000_000, 3_000_000_000_000_000, 4_294_967_296, 9_223_372_036, 9_223_372_036_854, 9_223_372_036_854_775] {
+                for j in [1i64, 2, 3, 4, 5, 8, 9] { if let Some(b) = m.checked_mul(per) { vals.push(b - j); vals.push(-(b - j)); vals.push(b.saturating_add(j)); } } } }
         for v in vals {
             tw.emit(ev("d.unit", json!({"name": name, "v": big(v as i128), "unit": big(u)}), || json!({"r": match name {
                 "weeks" => od(TimeDelta::try_weeks(v)), "days" => od(TimeDelta::try_days(v)), "hours" => od(TimeDelta::try_hours(v)),
@@ -159,6 +163,13 @@ pub fn run(ctx: &Ctx) -> Value {
     for &k in [65_537i32, -65_537, 86_400, 1 << 16, 1 << 30, i32::MAX, i32::MIN, 999_999_937, -1_000_000, 1_001].iter() {
         for d in [-1i128, 0, 1] { for f in [0i128, 999_999_999] { let a = ((i64::MAX as i128) / (k as i128).abs() + d) * NS + f; mul_pairs.push((a, k)); mul_pairs.push((-a, k)); } }
     }
+    // products of the sub-second part alone that end 1 or 2 ns below a whole second at the top of its range (nanos x k up to 2.1e18)
+    for nn in [999_999_999i128, 999_999_937, 500_000_001, 999_999_998, 123_456_789] {
+        let mut found = 0;
+        let mut k = i32::MAX as i128;
+        while found < 3 && k > i32::MAX as i128 - 3_000_000 { let r = (nn * k) % NS; if r == NS - 1 || r == NS - 2 { mul_pairs.push((nn, k as i32)); mul_pairs.push((nn, -(k as i32))); mul_pairs.push((-nn, k as i32)); mul_pairs.push((5 * NS + nn, k as i32 / 4)); found += 1; } k -= 1; }
+    }
+    for k in [1_000_000_001i32, 2_000_000_001, 1_000_000_002, 2_000_000_002, 1_125_000_001, 1_124_999_999] { for s in [1i128, -1] { mul_pairs.push((s * 999_999_999, k)); mul_pairs.push((s * 999_999_999, -k)); } }
     for (an, k) in mul_pairs {
         let a = match mk_dur(an) { Some(a) => a, None => continue };
         tw.emit(ev("d.mul", json!({"a": dur(a), "k": big(k as i128)}), || json!({"r": od(a.checked_mul(k))})));
